@@ -140,14 +140,12 @@ def run_post(ctx: Ctx, it_box: list, *, principal: str | None = "proxy", authent
     return out
 
 
-_ctor_cache: dict[str, dict[str, str]] = {}
-
-
 def _ctor_attrs(ctx: Ctx, ci) -> dict[str, str]:  # type: ignore[no-untyped-def]
     """Which ``self.<attr>`` holds the resolver / the allowlist / the limiter -- read from ``__init__``
     (first, second constructor parameter; the attribute assigned a ``_RateLimiter(...)``)."""
-    if ci.fq in _ctor_cache:
-        return _ctor_cache[ci.fq]
+    cached = ci.__dict__.get("_g5_ctor_attrs")
+    if cached is not None:
+        return cached
     init = ctx.res.find_method(ci, "__init__")
     if init is None:
         raise AnalysisError("anchor=_TokenIntrospectionResource.__init__")
@@ -166,7 +164,7 @@ def _ctor_attrs(ctx: Ctx, ci) -> dict[str, str]:  # type: ignore[no-untyped-def]
                 out["limiter"] = n.targets[0].attr
     if set(out) != {"resolver", "principals", "limiter"}:
         raise AnalysisError(f"C36: cannot map constructor arguments to attributes ({out})")
-    _ctor_cache[ci.fq] = out
+    ci.__dict__["_g5_ctor_attrs"] = out
     return out
 
 
